@@ -35,7 +35,8 @@ RULE = ('Every cell of the shape space above is executed (enumeration), and '
         'from the property text - names the single target and its exact '
         'argument tuple; the invocation log must contain exactly that entry '
         '(or none). Non-trivial: >=2 candidate targets present, or the '
-        'unrelated-handler flag set.')
+        'unrelated-handler flag set.'
+        ' Servers are configured with namespaces="*" or with a list (the judged namespace and a second one that has handlers of its own for the judged event and a catch-all).')
 ASSUMPTIONS = [
     "for an event literally named '*' the per-event targets coincide with "
     'the catch-all registry keys, so such cells are generated without them',
